@@ -80,6 +80,13 @@ CLAIMED = {
    design="DESIGN.md §3 C08",
    note=BASE_NOTE + "the link from the model image header to the IHDR bytes of `output` is by definition of the model's `output` (tied by replay).",
    technique="Coq proof (invariant over the reduction blocks, header-effect lemma per transformation) + model replay"),
+ "C09": dict(
+   text="Machine-checked (Properties/C09.v) on the model of parse_opts_into_struct / collect_files / exit fold / routing, against constants parsed from MANUAL.txt on every run: every row of the manual's preset table is what from_preset builds; default = level 2, interlace 0; "
+        "explicit settings override the preset and everything not given comes from it (flags are a record, so order cannot matter); --nx switches the four reductions off and implies keep-interlacing unless -i is given; strip/keep; critical chunk names refused; exit status 0/1/3 (iff); "
+        "only .png/.apng below top level, directories only with --recursive; routing. End to end: the REAL binary (no hooks) with random flag vectors and shuffled argument order vs the library called with the option value the extracted model computes; stdout / files / exit status compared.",
+   design="DESIGN.md §3 C09",
+   note=BASE_NOTE + "clap's own parsing (conflicts, value validation, help) is library code, modelled as accepted/refused; Windows glob expansion is not modelled.",
+   technique="Coq proof (rewrite database of per-stage projection lemmas; finite case analysis) + regenerated manual constants + black-box CLI vs library differential"),
  "C10": dict(
    text="Machine-checked (Properties/C10.v): recompression preserves number, order and every fcTL field of the frames and replaces frame data only by strictly smaller data; fcTL serialisation/parsing are inverse on all fields; "
         "sequence numbers written are consecutive; when the policy does not keep all of acTL/fcTL/fdAT they are all ignored (plain PNG). Generated APNGs (0..4 extra frames, split fdAT, default image in/out, sub-rectangles, all colour types, interlaced) x options: "
